@@ -952,6 +952,17 @@ def super_cache_owner(rep, mod, rule):
 # ---------------------------------------------------------------------------
 # C19: super proxies, over path summaries
 
+POP_FORMS = ("self.__dict__.pop('_super_cache', None)", "vars(self).pop('_super_cache', None)",
+             "self.__dict__.pop('_super_cache')", "delattr(self, '_super_cache')")
+
+
+def drops_super_cache(ps):
+    """events of the path that remove the instance's super-spec cache"""
+    return [e for e in ps.dels() if nt(e.r) == 'self._super_cache'] + \
+        [e for e in ps.stores() if nt(e.r) == 'self._super_cache' and nt(e.val) == 'None'] + \
+        [e for e in ps.events if e.kind == 'call' and nt(e.r) in POP_FORMS]
+
+
 def changed_drops_super_cache(rep, mod, rule):
     f = find_def(mod, 'Implements.changed')
     probs = []
@@ -959,9 +970,7 @@ def changed_drops_super_cache(rep, mod, rule):
     for ps in ss:
         sup = [e for e in ps.events if e.kind == 'call' and
                nt(e.r) == 'super().changed(originally_changed)']
-        drop = [e for e in ps.dels() if nt(e.r) == 'self._super_cache'] + \
-            [e for e in ps.stores() if nt(e.r) == 'self._super_cache'
-             and nt(e.val) == 'None']
+        drop = drops_super_cache(ps)
         if len(sup) != 1:
             probs.append('super().changed(originally_changed) called %d times on a path'
                          % len(sup))
